@@ -24,6 +24,7 @@ func runC40(c *Ctx) {
 	if m == nil {
 		return
 	}
+	c40committed(c, m)
 	if f := c.NeedFunc(m, "kgo.Client.listOffsetsForBrokerLoad"); f != nil {
 		rule := "start-offset-arms"
 		// find the if/else-if chain whose first condition is loadPart.afterMilli
@@ -202,4 +203,76 @@ func stripComments(s string) string {
 		out = append(out, ln)
 	}
 	return strings.Join(out, "\n")
+}
+
+// c40committed: a group member starts from its committed offset whenever one
+// exists - including a commit of exactly 0 - and falls back to the configured
+// start offset only when the fetched offset is negative (no commit).
+func c40committed(c *Ctx, m *Module) {
+	rule := "committed-offset-used-when-present"
+	f := c.NeedFunc(m, "kgo.groupConsumer.fetchOffsets")
+	if f == nil {
+		return
+	}
+	info := f.Info()
+	g := f.Graph()
+	startOff := m.Field("kgo", "cfg", "startOffset")
+	// facts about rPartition.Offset at a location
+	offFacts := func(l Loc) (neg, nonNeg bool, other []string) {
+		for _, ft := range g.FactsAt(l) {
+			s := nosp(exprStr(ft.Cond))
+			if !strings.Contains(s, "rPartition.Offset") {
+				continue
+			}
+			switch {
+			case s == "rPartition.Offset<0" && ft.Val, s == "rPartition.Offset>=0" && !ft.Val:
+				neg = true
+			case s == "rPartition.Offset<0" && !ft.Val, s == "rPartition.Offset>=0" && ft.Val:
+				nonNeg = true
+			default:
+				v := s
+				if !ft.Val {
+					v = "!(" + s + ")"
+				}
+				other = append(other, v)
+			}
+		}
+		return
+	}
+	nUse, nFallback := 0, 0
+	ast.Inspect(f.Decl.Body, func(x ast.Node) bool {
+		switch n := x.(type) {
+		case *ast.CompositeLit:
+			tv := info.Types[n]
+			if tv.Type == nil || !strings.HasSuffix(tv.Type.String(), "kgo.Offset") {
+				return true
+			}
+			uses := false
+			for _, e := range n.Elts {
+				if kv, ok := e.(*ast.KeyValueExpr); ok && exprStr(kv.Key) == "at" && nosp(exprStr(kv.Value)) == "rPartition.Offset" {
+					uses = true
+				}
+			}
+			if !uses {
+				return true
+			}
+			nUse++
+			st := enclosingStmt(f.Decl.Body, n)
+			l, _ := g.LocOf(st)
+			_, _, other := offFacts(l)
+			c.Check(len(other) == 0, rule, f.Key+": Offset{at: rPartition.Offset} for every non-negative fetched offset", n.Pos(), m, "", "the committed offset is used only under "+strings.Join(other, ", ")+": a group whose committed offset is exactly 0 is treated as having no commit (AtCommitted fails, AtEnd skips every record)")
+		case *ast.AssignStmt:
+			if len(n.Rhs) != 1 || !sameField(fieldOfSel(info, n.Rhs[0]), startOff) || nosp(exprStr(n.Rhs[0])) != "g.cfg.startOffset" {
+				return true
+			}
+			if len(n.Lhs) != 1 || exprStr(n.Lhs[0]) != "offset" {
+				return true
+			}
+			l, _ := g.LocOf(n)
+			neg, _, other := offFacts(l)
+			c.Check(neg && len(other) == 0, rule, f.Key+": fallback to the configured start offset only for a negative fetched offset#"+ordinal(&nFallback), n.Pos(), m, "", "the configured start offset replaces the fetched offset without the `rPartition.Offset < 0` test")
+		}
+		return true
+	})
+	c.Check(nUse >= 1 && nFallback >= 1, rule, f.Key+"#sites", f.Pos(), m, "", "committed-offset construction or start-offset fallback not found")
 }
